@@ -69,9 +69,12 @@ type targetPanic struct {
 }
 
 type strIter struct {
-	ip *Interp
-	s  Value
-	i  int
+	ip       *Interp
+	s        Value
+	b        []*Term
+	cs       string
+	concrete bool
+	i        int
 }
 
 type mapIter struct {
